@@ -5,10 +5,17 @@ The independent interpretation is the Lean model: the Codec model decodes the wh
 model's answers are compared with the code's provider for the same file: id list, every zone's decoded data
 (periods, tail rules), behaviour (`get_zone_interval` at period boundaries, tail transitions evaluated from the
 yearly rules with the model's own calendar arithmetic), aliases, fixed-offset ids, `validate()`.
+The rest of the file is inside the model too (`src.*` ops): the CLDR Windows mapping (field 4), the zone locations
+(field 6) and zone-1970 locations (field 7), the version strings, the derived maps `tzdb_to_windows_ids` /
+`windows_to_tzdb_ids` and `validate()` as the decidable check `sourceValid`; `mut.*` ops evaluate the same on
+byte-level edits of the real files (damaged and benignly rearranged data), where the code's accept/reject (and the
+group of the first failing test) is compared with the model's on the same bytes.
 A disagreement here *is* the failing input (file, zone id, field or instant)."""
 from __future__ import annotations
 
+import contextlib
 import io
+import zlib
 
 import zonelib as Z
 from common import REPO, InfraError, guard, hexs, model_eval
@@ -18,18 +25,28 @@ FILES = [("A:", "pyoda_time/time_zones/Tzdb.nzd"), ("B:", "tests/test_data/Tzdb2
 
 META = {
     "property": "C06",
-    "proof_modules": ["PyodaProofs.C06"],
+    "proof_modules": ["PyodaProofs.C06", "PyodaProofs.C06Source", "PyodaProofs.C06Validate", "PyodaProofs.C06Maps"],
     "drivers": ["drv_c06"],
     "theorems": [
         "Pyoda.C06.ids_sorted", "Pyoda.C06.ids_perm", "Pyoda.C06.fixed_id_roundtrip", "Pyoda.C06.fixed_id_range",
         "Pyoda.C06.alias_yields_canonical_data", "Pyoda.C06.rule_offset_spec",
+        "Pyoda.C06.fromStreamX_stream", "Pyoda.C06.versionId_eq",
+        "Pyoda.C06.sourceValid_sound", "Pyoda.C06.sourceValid_iff", "Pyoda.C06.firstFailure_zero_iff",
+        "Pyoda.C06.mem_primaryMapping", "Pyoda.C06.sourceValid_eq_strict", "Pyoda.C06.strict_imp_valid",
+        "Pyoda.C06.exact_duplicate_accepted",
+        "Pyoda.C06.windowsToTzdb_canonical", "Pyoda.C06.tzdbToWindows_entries", "Pyoda.C06.tzdbToWindows_direct",
     ],
     "trusted_base": [
         "the model reader (PyodaModel/Codec/*) is the independent interpretation of the file format; C14 proves it inverse to the documented writer on the primitives",
-        "equality of decoded data and of behaviour is established by exhaustive comparison over both real files (every id, every period, every tail rule field; behaviour at every period boundary and sampled tail years), not by a theorem",
+        "equality of decoded data and of behaviour is established by exhaustive comparison over both real files (every id, every period, every tail rule field; every MapZone, location and 1970 location record, the version strings, both derived Windows maps; behaviour at every period boundary and sampled tail years), not by a theorem",
+        "sourceValid / firstFailure are evaluated on the decoded files by the compiled driver (Lean compiler and runtime trusted for that evaluation; sourceValid_iff is kernel-checked)",
+        "the harness's own encoder of fields 3, 4, 6, 7 (used to build edited files) reproduces the bytes of both real files exactly; model and code are shown to read the same edited bytes by length and Adler-32",
     ],
-    "partial": ["TzdbZoneLocation / Zone1970Location / Windows mapping payloads are outside the model (not compared)"],
-    "rule": "both real database files, every id (canonical and alias): decoded data field by field (exhaustive); behaviour at every stored period boundary +-1 ns, tail years sampled; fixed-offset ids on a stride (all 129601 in thorough); distinct = distinct op",
+    "partial": [
+        "validate() is modelled as coded: MapZone entries equal in all three components collapse before the duplicate-territory test (exact_duplicate_accepted); Noda Time tests the entries as listed (sourceValidStrict, strict_imp_valid)",
+        "damaged data are sampled (about 40 kinds of edit of fields 3, 4, 6, 7 per file and round), not enumerated; get_system_default_id / guess_zone_id_from_windows are not ported and not modelled",
+    ],
+    "rule": "both real database files, every id (canonical and alias): decoded data field by field (exhaustive); behaviour at every stored period boundary +-1 ns, tail years sampled; fixed-offset ids on a stride (all 129601 in thorough); every record of fields 4, 6, 7 (exhaustive); byte-level edits of fields 3, 4, 6, 7: one per kind and file (12 in thorough); distinct = distinct op",
 }
 
 _prov = {}
@@ -68,6 +85,8 @@ MODEL = {}
 
 def impl(t):
     op = t[0]
+    if op.startswith("src.") or op.startswith("mut."):
+        return impl_src(t)
     if op == "file.load":
         pfx = t[1]
         prov, src = provider(pfx)
@@ -104,6 +123,8 @@ def impl(t):
 def oracle(t):
     """a difference between the code and the model's reading of the bytes is itself the failing input"""
     line = " ".join(t)
+    if t[0].startswith("src.") or t[0].startswith("mut."):
+        return oracle_src(t)
     if t[0] == "file.load":
         m = MODEL.get(line[:20])
         r = guard(impl, t)
@@ -149,6 +170,603 @@ def alias_case(c):
     if prov[alias] is not za:
         return {"key": "provider-lookup-not-stable", "what": f"{pfx}{alias}"}
     return None
+
+
+# --------------------------------------------------------------------------------------
+# the rest of the file: Windows mapping, locations, version strings, derived maps, validate()
+# --------------------------------------------------------------------------------------
+
+def _optlen(x):
+    return "-" if x is None else str(len(x))
+
+
+def _pairs(d):
+    items = sorted(d.items())
+    return str(len(items)) + "".join(f" {hexs(k)} {hexs(v)}" for k, v in items)
+
+
+VALIDATE_GROUPS = [
+    ("Mapping for entry", 1),
+    ("Windows mapping for standard ID", 2),
+    ("Windows mapping uses TZDB ID", 3),
+    ("Windows mapping has multiple entries for TZDB ID", 3),
+    ("Windows mapping has duplicate territories", 4),
+    ("Windows mapping has no primary territory entry", 4),
+    ("Expected one tzdb id for primary zone", 4),
+    ("Windows mapping primary territory entry", 4),
+    ("Zone location", 5),
+    ("Zone 1970 location", 6),
+]
+
+
+def validate_group(src) -> str:
+    """0 when validate() returns normally, else the number of the group of tests that raised (by its message)"""
+    from pyoda_time.utility import InvalidPyodaDataError
+    try:
+        src.validate()
+        return "0"
+    except InvalidPyodaDataError as e:
+        msg = str(e)
+        for pfx, g in VALIDATE_GROUPS:
+            if msg.startswith(pfx):
+                return str(g)
+        return "unknown-message:" + hexs(msg[:60])
+
+
+def src_answer(src, what, arg):
+    """canonical rendering of one aspect of a TzdbDateTimeZoneSource (the model's `answer`)"""
+    wm = src.windows_mapping
+    if what == "info":
+        return " ".join(["ok", hexs(src.version_id), hexs(src.tzdb_version), hexs(wm.version), hexs(wm.tzdb_version),
+                         hexs(wm.windows_version), str(len(wm.map_zones)), str(len(wm.primary_mapping)),
+                         _optlen(src.zone_locations), _optlen(src.zone_1970_locations)])
+    if what == "mapzone":
+        if arg >= len(wm.map_zones):
+            return "none"
+        z = wm.map_zones[arg]
+        return " ".join([hexs(z.windows_id), hexs(z.territory), str(len(z.tzdb_ids))] + [hexs(i) for i in z.tzdb_ids])
+    if what == "primary":
+        return _pairs(wm.primary_mapping)
+    if what == "loc":
+        ls = src.zone_locations
+        if ls is None:
+            return "absent"
+        if arg >= len(ls):
+            return "none"
+        x = ls[arg]
+        return " ".join([str(x._TzdbZoneLocation__latitude_seconds), str(x._TzdbZoneLocation__longitude_seconds),
+                         hexs(x.country_name), hexs(x.country_code), hexs(x.zone_id), hexs(x.comment)])
+    if what == "loc70":
+        ls = src.zone_1970_locations
+        if ls is None:
+            return "absent"
+        if arg >= len(ls):
+            return "none"
+        x = ls[arg]
+        out = [str(x._TzdbZone1970Location__latitude_seconds), str(x._TzdbZone1970Location__longitude_seconds), str(len(x.countries))]
+        for c in x.countries:
+            out += [hexs(c.name), hexs(c.code)]
+        return " ".join(out + [hexs(x.zone_id), hexs(x.comment)])
+    if what == "t2w":
+        return _pairs(src.tzdb_to_windows_ids)
+    if what == "w2t":
+        return _pairs(src.windows_to_tzdb_ids)
+    if what == "valid":
+        return validate_group(src)
+    raise ValueError(what)
+
+
+# ---- byte-level tools, written from the format description (independent of the code's reader and writer) -------
+
+def _rd_varint(b, p):
+    n = sh = 0
+    while True:
+        x = b[p]
+        p += 1
+        n |= (x & 127) << sh
+        sh += 7
+        if x < 128:
+            return n, p
+
+
+def _wr_varint(n):
+    out = bytearray()
+    while n > 127:
+        out.append((n & 127) | 128)
+        n >>= 7
+    out.append(n)
+    return bytes(out)
+
+
+def _zz(n):
+    return _wr_varint(n * 2 if n >= 0 else -n * 2 - 1)
+
+
+def _unzz(u):
+    return u // 2 if u % 2 == 0 else -(u // 2) - 1
+
+
+class Image:
+    """the parts of a database file that the damaged-data suite rewrites, decoded into plain lists"""
+
+    def __init__(self, data: bytes):
+        self.data = data
+        self.fields = []              # (id, header offset, payload offset, payload length)
+        p = 4
+        while p < len(data):
+            fid, h = data[p], p
+            n, q = _rd_varint(data, p + 1)
+            self.fields.append((fid, h, q, n))
+            p = q + n
+        pl = self.payload(0)
+        cnt, p = _rd_varint(pl, 0)
+        self.pool = []
+        for _ in range(cnt):
+            n, p = _rd_varint(pl, p)
+            self.pool.append(pl[p:p + n].decode())
+            p += n
+        self.pidx = {}
+        for i, s_ in enumerate(self.pool):
+            self.pidx.setdefault(s_, i)
+        # field 3
+        pl = self.payload(3)
+        cnt, p = _rd_varint(pl, 0)
+        self.idmap = []
+        for _ in range(cnt):
+            k, p = self._str(pl, p)
+            v, p = self._str(pl, p)
+            self.idmap.append([k, v])
+        self.zone_ids = []
+        for fid, h, q, n in self.fields:
+            if fid == 1:
+                self.zone_ids.append(self._str(data, q)[0])
+        # field 4
+        pl = self.payload(4)
+        self.wver, p = self._str(pl, 0)
+        self.wtz, p = self._str(pl, p)
+        self.wwin, p = self._str(pl, p)
+        cnt, p = _rd_varint(pl, p)
+        self.mapzones = []
+        for _ in range(cnt):
+            w, p = self._str(pl, p)
+            t, p = self._str(pl, p)
+            n, p = _rd_varint(pl, p)
+            ids = []
+            for _ in range(n):
+                i, p = self._str(pl, p)
+                ids.append(i)
+            self.mapzones.append([w, t, ids])
+        # field 6
+        self.locs = None
+        if self.has(6):
+            pl = self.payload(6)
+            cnt, p = _rd_varint(pl, 0)
+            self.locs = []
+            for _ in range(cnt):
+                la, p = _rd_varint(pl, p)
+                lo, p = _rd_varint(pl, p)
+                cn, p = self._str(pl, p)
+                cc, p = self._str(pl, p)
+                zi, p = self._str(pl, p)
+                co, p = self._str(pl, p)
+                self.locs.append([_unzz(la), _unzz(lo), cn, cc, zi, co])
+        # field 7
+        self.locs70 = None
+        if self.has(7):
+            pl = self.payload(7)
+            cnt, p = _rd_varint(pl, 0)
+            self.locs70 = []
+            for _ in range(cnt):
+                la, p = _rd_varint(pl, p)
+                lo, p = _rd_varint(pl, p)
+                n, p = _rd_varint(pl, p)
+                cs = []
+                for _ in range(n):
+                    nm, p = self._str(pl, p)
+                    cd, p = self._str(pl, p)
+                    cs.append([nm, cd])
+                zi, p = self._str(pl, p)
+                co, p = self._str(pl, p)
+                self.locs70.append([_unzz(la), _unzz(lo), cs, zi, co])
+
+    def has(self, fid):
+        return any(f[0] == fid for f in self.fields)
+
+    def payload(self, fid):
+        f = next(f for f in self.fields if f[0] == fid)
+        return self.data[f[2]:f[2] + f[3]]
+
+    def _str(self, b, p):
+        i, p = _rd_varint(b, p)
+        return self.pool[i], p
+
+    def known_ids(self):
+        return {k for k, _ in self.idmap} | set(self.zone_ids)
+
+    # ---- encoders of the rewritten fields (pooled strings: the index of the first equal pool entry)
+    def _ps(self, s_):
+        return _wr_varint(self.pidx[s_])
+
+    def enc3(self, idmap):
+        return _wr_varint(len(idmap)) + b"".join(self._ps(k) + self._ps(v) for k, v in idmap)
+
+    def enc4(self, mapzones):
+        out = self._ps(self.wver) + self._ps(self.wtz) + self._ps(self.wwin) + _wr_varint(len(mapzones))
+        for w, t, ids in mapzones:
+            out += self._ps(w) + self._ps(t) + _wr_varint(len(ids)) + b"".join(self._ps(i) for i in ids)
+        return out
+
+    def enc6(self, locs):
+        out = _wr_varint(len(locs))
+        for la, lo, cn, cc, zi, co in locs:
+            out += _zz(la) + _zz(lo) + self._ps(cn) + self._ps(cc) + self._ps(zi) + self._ps(co)
+        return out
+
+    def enc7(self, locs):
+        out = _wr_varint(len(locs))
+        for la, lo, cs, zi, co in locs:
+            out += _zz(la) + _zz(lo) + _wr_varint(len(cs)) + b"".join(self._ps(n) + self._ps(c) for n, c in cs) + self._ps(zi) + self._ps(co)
+        return out
+
+    def edits_for(self, fid, new_payload: bytes):
+        """splices (offset, deleted, inserted) that turn field `fid` into one with `new_payload`; highest offset first"""
+        f = next(f for f in self.fields if f[0] == fid)
+        _, h, q, n = f
+        old = self.data[q:q + n]
+        a = 0
+        while a < min(len(old), len(new_payload)) and old[a] == new_payload[a]:
+            a += 1
+        b = 0
+        while b < min(len(old), len(new_payload)) - a and old[len(old) - 1 - b] == new_payload[len(new_payload) - 1 - b]:
+            b += 1
+        ed = []
+        if old != new_payload:
+            ed.append((q + a, len(old) - a - b, new_payload[a:len(new_payload) - b]))
+        if len(new_payload) != n:
+            ed.append((h + 1, q - h - 1, _wr_varint(len(new_payload))))
+        return ed
+
+
+_images = {}
+
+
+def image(pfx):
+    if pfx not in _images:
+        _images[pfx] = Image((REPO / dict(FILES)[pfx]).read_bytes())
+    return _images[pfx]
+
+
+def apply_edits(data: bytes, edit_toks):
+    """the edits of a `mut.*` op applied one after the other (the model's `applyEdits`)"""
+    b = bytearray(data)
+    for k in range(0, len(edit_toks), 3):
+        off, dl, ins = int(edit_toks[k]), int(edit_toks[k + 1]), (b"" if edit_toks[k + 2] == "-" else bytes.fromhex(edit_toks[k + 2]))
+        b[off:off + dl] = ins
+    return bytes(b)
+
+
+_mut_cache = {}
+
+
+def mutated_source(pfx, edit_toks):
+    """(bytes, source or exception) for an edited file, loaded with from_stream"""
+    key = (pfx, tuple(edit_toks))
+    if key not in _mut_cache:
+        if len(_mut_cache) > 64:
+            _mut_cache.clear()
+        from pyoda_time.time_zones._tzdb_date_time_zone_source import TzdbDateTimeZoneSource
+        data = apply_edits(image(pfx).data, edit_toks)
+        try:
+            src = TzdbDateTimeZoneSource.from_stream(io.BytesIO(data))
+        except Exception as e:  # noqa: BLE001
+            src = e
+        _mut_cache[key] = (data, src)
+    return _mut_cache[key]
+
+
+def impl_src(t):
+    op = t[0]
+    if op.startswith("src."):
+        src = provider(t[1])[1]
+        return src_answer(src, op[4:], int(t[2]) if len(t) > 2 else None)
+    # mut.<what> <pfx> <arg or -> <n> (off del hex)*
+    what, pfx, arg, n = op[4:], t[1], t[2], int(t[3])
+    edits = t[4:]
+    if len(edits) != 3 * n:
+        raise InfraError("malformed mut op")
+    data, src = mutated_source(pfx, edits)
+    head = f"{len(data)} {zlib.adler32(data)} "
+    if isinstance(src, BaseException):
+        from common import exc_name
+        return head + exc_name(src)
+    return head + guard(src_answer, src, what, None if arg == "-" else int(arg))
+
+
+def mut_op(what, pfx, edits, arg="-"):
+    toks = [f"mut.{what}", pfx, str(arg), str(len(edits))]
+    for off, dl, ins in edits:
+        toks += [str(off), str(dl), ins.hex() if ins else "-"]
+    return " ".join(toks)
+
+
+def build_mutants(pfx, rng, rounds):
+    """(kind, edits) for byte-level rewrites of fields 3, 4, 6, 7 of the file behind `pfx`: damage of every kind that
+    validate() tests for, damage that the loader rejects, and benign rearrangements that must stay acceptable"""
+    im = image(pfx)
+    known = im.known_ids()
+    P = "001"
+    strangers = [s_ for s_ in im.pool if s_ and s_ not in known and len(s_) > 3]   # pool strings that are no zone id
+    out = []
+    terrs = sorted({s_ for s_ in im.pool if len(s_) == 2 and s_.isalpha() and s_.isupper()})
+
+    def fresh_terr(w):
+        """a territory code of the pool that windows id `w` does not use yet"""
+        have = {x[1] for x in im.mapzones if x[0] == w}
+        return rng.choice([t_ for t_ in terrs if t_ not in have])
+
+    def mz_copy():
+        return [[w, t, list(ids)] for w, t, ids in im.mapzones]
+
+    def emit(kind, fid, payload):
+        out.append((kind, im.edits_for(fid, payload)))
+
+    def emit2(kind, parts):
+        eds = []
+        for fid, payload in parts:
+            eds += im.edits_for(fid, payload)
+        eds.sort(key=lambda e: -e[0])
+        out.append((kind, eds))
+
+    wids = sorted({w for w, _, _ in im.mapzones})
+    nonprim = [i for i, z in enumerate(im.mapzones) if z[1] != P and z[2]]
+    prim = [i for i, z in enumerate(im.mapzones) if z[1] == P]
+    aliases = [i for i, (k, v) in enumerate(im.idmap) if k != v]
+    used = {i for _, t, ids in im.mapzones if t != P for i in ids}
+    unused = sorted(known - used)
+    emit("identity", 4, im.enc4(im.mapzones))
+    for _ in range(rounds):
+        # ---- group 3: unknown id / id mapped twice
+        z = mz_copy(); i = rng.choice(nonprim + prim); z[i][2][rng.randrange(len(z[i][2]))] = rng.choice(strangers)
+        emit("mz-unknown-id", 4, im.enc4(z))
+        z = mz_copy(); i, j = rng.sample(nonprim, 2); z[i][2].append(rng.choice(z[j][2]))
+        emit("mz-id-mapped-twice", 4, im.enc4(z))
+        z = mz_copy(); i = rng.choice(nonprim); z[i][2].append(z[i][2][0])
+        emit("mz-id-twice-in-one-entry", 4, im.enc4(z))
+        z = mz_copy(); i = rng.choice(nonprim); z.insert(rng.randrange(len(z) + 1), [z[i][0], z[i][1], list(z[i][2])])
+        emit("mz-exact-duplicate-nonprimary", 4, im.enc4(z))
+        # ---- group 2: no primary territory
+        z = mz_copy(); i = rng.choice(prim); del z[i]
+        emit("mz-drop-primary", 4, im.enc4(z))
+        z = mz_copy(); i = rng.choice(prim); z[i][1] = fresh_terr(z[i][0])
+        emit("mz-primary-territory-renamed", 4, im.enc4(z))
+        # ---- group 4: territories / primary entry
+        multi = [w for w in wids if sum(1 for x in im.mapzones if x[0] == w and x[1] != P) >= 2]
+        if multi:
+            w = rng.choice(multi)
+            idx = [k for k, x in enumerate(im.mapzones) if x[0] == w and x[1] != P]
+            a, b = rng.sample(idx, 2)
+            z = mz_copy(); z[a][1] = z[b][1]
+            emit("mz-duplicate-territory", 4, im.enc4(z))
+        z = mz_copy(); i = rng.choice(prim); z.insert(rng.randrange(len(z) + 1), [z[i][0], P, list(z[i][2])])
+        emit("mz-exact-duplicate-primary", 4, im.enc4(z))          # equal entries collapse in the code: accepted
+        z = mz_copy(); i = rng.choice(prim); z.append([z[i][0], P, [rng.choice(sorted(known))]])
+        emit("mz-second-primary-other-id", 4, im.enc4(z))
+        z = mz_copy(); i = rng.choice(prim); t_ = fresh_terr(z[i][0]); z.append([z[i][0], t_, []]); z.insert(0, [z[i][0], t_, []])
+        emit("mz-exact-duplicate-empty-entry", 4, im.enc4(z))
+        z = mz_copy(); i = rng.choice(prim); z[i][2].append(rng.choice(sorted(known)))
+        emit("mz-primary-two-ids", 4, im.enc4(z))
+        z = mz_copy(); i = rng.choice(prim); z[i][2] = [rng.choice(unused)]
+        emit("mz-primary-id-not-in-territories", 4, im.enc4(z))
+        z = mz_copy(); i = rng.choice(prim); z[i][2] = []
+        emit("mz-primary-no-ids(load)", 4, im.enc4(z))
+        z = mz_copy(); i = rng.choice(nonprim); z[i][2] = []
+        emit("mz-nonprimary-no-ids", 4, im.enc4(z))
+        # ---- group 1: canonical map closure
+        m = [list(e) for e in im.idmap]; i, j = rng.sample(aliases, 2); m[i][1] = m[j][0]
+        emit("canon-alias-of-alias", 3, im.enc3(m))
+        m = [list(e) for e in im.idmap]; i = rng.choice(aliases); m[i][1] = rng.choice(strangers)
+        emit("canon-target-missing", 3, im.enc3(m))
+        m = [list(e) for e in im.idmap]; i = rng.choice(aliases); m.append([m[i][1], m[i][0]])
+        emit("canon-zone-id-redirected", 3, im.enc3(m))             # overwritten by the zone fields: stays valid
+        m = [list(e) for e in im.idmap]; i = rng.choice(aliases); m.append([m[i][0], rng.choice(sorted(known))])
+        emit("canon-alias-listed-twice", 3, im.enc3(m))
+        # ---- groups 5, 6: locations
+        if im.locs:
+            l = [list(x) for x in im.locs]; l[rng.randrange(len(l))][4] = rng.choice(strangers)
+            emit("loc-zone-missing", 6, im.enc6(l))
+            l = [list(x) for x in im.locs]; i = rng.randrange(len(l)); l[i][4] = im.idmap[rng.choice(aliases)][0]
+            emit("loc-zone-is-alias", 6, im.enc6(l))
+            l = [list(x) for x in im.locs]; rng.shuffle(l)
+            emit("loc-shuffled", 6, im.enc6(l[:rng.randrange(1, len(l))]))
+            emit("loc-none-left", 6, im.enc6([]))
+            l = [list(x) for x in im.locs]; i = rng.randrange(len(l)); l[i][0] = rng.choice([324001, -324001, 324000, -324000])
+            emit("loc-latitude-edge(load)", 6, im.enc6(l))
+            l = [list(x) for x in im.locs]; i = rng.randrange(len(l)); l[i][1] = rng.choice([648001, -648001, 648000])
+            emit("loc-longitude-edge(load)", 6, im.enc6(l))
+            l = [list(x) for x in im.locs]; i = rng.randrange(len(l)); l[i][3] = rng.choice(strangers)
+            emit("loc-country-code-long(load)", 6, im.enc6(l))
+            if "" in im.pidx:
+                l = [list(x) for x in im.locs]; i = rng.randrange(len(l)); l[i][2] = ""
+                emit("loc-country-name-empty(load)", 6, im.enc6(l))
+        if im.locs70:
+            l = [[a, b, [list(c) for c in cs], zi, co] for a, b, cs, zi, co in im.locs70]; l[rng.randrange(len(l))][3] = rng.choice(strangers)
+            emit("loc70-zone-missing", 7, im.enc7(l))
+            l = [[a, b, [list(c) for c in cs], zi, co] for a, b, cs, zi, co in im.locs70]; l[rng.randrange(len(l))][2] = []
+            emit("loc70-no-countries(load)", 7, im.enc7(l))
+            l = [[a, b, [list(c) for c in cs], zi, co] for a, b, cs, zi, co in im.locs70]; i = rng.randrange(len(l)); l[i][2][0][1] = rng.choice(strangers)
+            emit("loc70-country-code-long(load)", 7, im.enc7(l))
+            l = [[a, b, [list(c) for c in cs], zi, co] for a, b, cs, zi, co in im.locs70]; rng.shuffle(l)
+            emit("loc70-shuffled", 7, im.enc7(l))
+            if im.locs:
+                l6 = [list(x) for x in im.locs]; l6[rng.randrange(len(l6))][4] = rng.choice(strangers)
+                l7 = [[a, b, [list(c) for c in cs], zi, co] for a, b, cs, zi, co in im.locs70]; l7[rng.randrange(len(l7))][3] = rng.choice(strangers)
+                emit2("loc+loc70-zone-missing", [(6, im.enc6(l6)), (7, im.enc7(l7))])
+        # ---- benign rearrangements and alias back-filling material for the derived maps
+        z = mz_copy(); rng.shuffle(z)
+        emit("mz-shuffled", 4, im.enc4(z))
+        z = mz_copy(); z.reverse()
+        emit("mz-reversed", 4, im.enc4(z))
+        z = mz_copy()
+        pairs = [(i, k) for i in nonprim for k, v in im.idmap if k != v and v in z[i][2] and k not in used]
+        if pairs:
+            i, k = rng.choice(pairs); v = dict(map(tuple, im.idmap))[k]
+            z[i][2][z[i][2].index(v)] = k                            # an alias is mapped, its canonical id is back-filled
+            for x in z:
+                if x[0] == z[i][0] and x[1] == P and x[2] == [v]:
+                    x[2] = [k]
+            emit("mz-alias-mapped-directly", 4, im.enc4(z))
+        # two aliases of one canonical id mapped to different windows ids: the back-filling order (sorted) decides
+        by_canon = {}
+        for k, v in im.idmap:
+            if k != v and k not in used:
+                by_canon.setdefault(v, []).append(k)
+        comp = [(v, ks) for v, ks in sorted(by_canon.items()) if len(ks) >= 2 and v in used]
+        if comp:
+            v, ks = rng.choice(comp); k1, k2 = rng.sample(ks, 2)
+            z = mz_copy()
+            for x in z:
+                if v in x[2]:
+                    x[2][x[2].index(v)] = k1
+            others = [i for i in nonprim if k1 not in z[i][2]]
+            home = next(x[0] for x in z if x[1] != P and k1 in x[2])
+            others = [i for i in others if z[i][0] != home]
+            z[rng.choice(others)][2].append(k2)
+            emit("mz-two-aliases-compete", 4, im.enc4(z))
+        if "" in im.pidx:
+            z = mz_copy(); w = rng.choice(wids)
+            for x in z:
+                if x[0] == w:
+                    x[0] = ""
+            emit("mz-empty-windows-id", 4, im.enc4(z))              # `mutable.get(k)` is tested for truth
+        z = mz_copy(); w = rng.choice(strangers); u = rng.choice(unused)
+        z += [[w, P, [u]], [w, rng.choice(terrs), [u]]]
+        emit("mz-new-windows-id", 4, im.enc4(z))
+        m = [list(e) for e in im.idmap]; rng.shuffle(m)
+        emit("canon-shuffled", 3, im.enc3(m))
+        m = [list(e) for e in im.idmap]; m.append([rng.choice(strangers), rng.choice(im.zone_ids)])
+        emit("canon-new-alias", 3, im.enc3(m))
+        m = [list(e) for e in im.idmap]; i = rng.choice(aliases); del m[i]
+        z = mz_copy()
+        emit2("canon-alias-removed", [(3, im.enc3(m)), (4, im.enc4(z))])
+        m = [list(e) for e in im.idmap]; z = mz_copy(); i = rng.choice(nonprim)
+        m.append([rng.choice(strangers), z[i][2][0]]); rng.shuffle(z)
+        emit2("canon-new-alias+mz-shuffled", [(3, im.enc3(m)), (4, im.enc4(z))])
+    return out
+
+
+def oracle_src(t):
+    """the model's reading of the (edited) bytes is the reference; a difference is the failing input"""
+    line = " ".join(t)
+    m = MODEL.get(line)
+    if m is None:
+        return None
+    r = guard(impl_src, t)
+    if r == m:
+        return None
+    what = t[0][4:]
+    if t[0].startswith("src."):
+        ms, rs = m.split(" "), r.split(" ")
+        i = next((k for k in range(min(len(ms), len(rs))) if ms[k] != rs[k]), min(len(ms), len(rs)))
+        key = {"valid": "validate-outcome-differs-from-file", "t2w": "tzdb-to-windows-map-differs", "w2t": "windows-to-tzdb-map-differs",
+               "info": "version-strings-differ-from-file"}.get(what, "source-payload-differs-from-file")
+        return {"key": key, "what": f"{' '.join(t[:3])}: token {i}: the file says {' '.join(ms[max(0, i - 1):i + 2])[:200]}, the code has {' '.join(rs[max(0, i - 1):i + 2])[:200]}"}
+    kind = MUT_KIND.get(line, "?")
+    ms, rs = m.split(" ", 2), r.split(" ", 2)
+    if ms[:2] != rs[:2]:
+        raise InfraError(f"edited bytes differ between harness and model for {kind}: {ms[:2]} / {rs[:2]}")
+    key = {"valid": "damaged-data-validate-outcome-differs", "t2w": "damaged-data-tzdb-to-windows-differs",
+           "w2t": "damaged-data-windows-to-tzdb-differs"}.get(what, "damaged-data-payload-differs")
+    return {"key": key, "what": f"file {t[1]} with edit '{kind}' ({t[0]}): " + _diff_text(what, rs[2], ms[2])}
+
+
+def _diff_text(what, code, model):
+    """where two replies differ; for the dict-valued ones the first key with different values"""
+    if what in ("t2w", "w2t", "primary") and not code.startswith("!") and not model.startswith("!"):
+        def parse(x):
+            p = x.split(" ")[1:]
+            return {p[i]: p[i + 1] for i in range(0, len(p) - 1, 2)}
+
+        def txt(h):
+            return "(absent)" if h is None else repr(bytes.fromhex(h).decode(errors="replace")) if h != "-" else "''"
+        c, m = parse(code), parse(model)
+        for k in sorted(set(c) | set(m)):
+            if c.get(k) != m.get(k):
+                return f"key {txt(k)}: the code has {txt(c.get(k))}, the reading of the same bytes gives {txt(m.get(k))}"
+    return f"the code answers {code[:160]}, the reading of the same bytes gives {model[:160]}"
+
+
+MUT_KIND = {}
+
+
+@contextlib.contextmanager
+def _recording_model_replies():
+    """while active, every reply of the model driver is also stored in MODEL (the oracle's reference)"""
+    import common
+    orig = common.model_eval
+
+    def recording(lines, driver="drv_elapsed", timeout=1800):
+        res = orig(lines, driver, timeout)
+        for o, r in zip(lines, res):
+            if not o.startswith("file.load"):
+                MODEL[o] = r
+        return res
+    common.model_eval = recording
+    try:
+        yield
+    finally:
+        common.model_eval = orig
+
+
+def derived_maps_case(c):
+    """the laws the theorems state, evaluated on the real code's own objects (a loaded or an edited source)"""
+    label, src = c
+    if validate_group(src) != "0":
+        return None
+    cm = src.canonical_id_map
+    for w, t_ in src.windows_to_tzdb_ids.items():
+        if cm.get(t_) != t_:
+            return {"key": "windows-to-tzdb-value-not-canonical", "what": f"{label}: windows_to_tzdb_ids[{w!r}] = {t_!r} is not a canonical id"}
+    t2w = src.tzdb_to_windows_ids
+    for k in t2w:
+        if k not in cm:
+            return {"key": "tzdb-to-windows-key-unknown", "what": f"{label}: tzdb_to_windows_ids has key {k!r} which the source does not know"}
+    for z in src.windows_mapping.map_zones:
+        if z.territory != "001":
+            for i in z.tzdb_ids:
+                if t2w.get(i) != z.windows_id:
+                    return {"key": "tzdb-to-windows-disagrees-with-mapzone", "what": f"{label}: {i!r} is mapped to {z.windows_id!r} by the file, tzdb_to_windows_ids says {t2w.get(i)!r}"}
+    for l in (src.zone_locations or ()):
+        if l.latitude != l._TzdbZoneLocation__latitude_seconds / 3600.0 or l.longitude != l._TzdbZoneLocation__longitude_seconds / 3600.0:
+            return {"key": "location-degrees", "what": f"{label}: {l.zone_id}: latitude/longitude are not seconds/3600"}
+    for l in (src.zone_1970_locations or ()):
+        if l.latitude != l._TzdbZone1970Location__latitude_seconds / 3600.0 or l.longitude != l._TzdbZone1970Location__longitude_seconds / 3600.0:
+            return {"key": "location-degrees", "what": f"{label}: {l.zone_id}: latitude/longitude are not seconds/3600"}
+    return None
+
+
+def source_ops(ctx):
+    """ops of the payload suite and of the damaged-data suite"""
+    pay, mut = [], []
+    for pfx, _ in FILES:
+        src = provider(pfx)[1]
+        pay += [f"src.info {pfx}", f"src.primary {pfx}", f"src.t2w {pfx}", f"src.w2t {pfx}", f"src.valid {pfx}"]
+        n = len(src.windows_mapping.map_zones)
+        pay += [f"src.mapzone {pfx} {i}" for i in range(n + 1)]
+        pay += [f"src.loc {pfx} {i}" for i in range(len(src.zone_locations or ()) + 1)]
+        pay += [f"src.loc70 {pfx} {i}" for i in range(len(src.zone_1970_locations or ()) + 1)]
+        for kind, edits in build_mutants(pfx, ctx.rng, ctx.scale(1, 12)):
+            for what in (("valid",) if kind.startswith("loc") else ("valid", "t2w", "w2t")):
+                o = mut_op(what, pfx, edits)
+                MUT_KIND[o] = kind
+                mut.append(o)
+            im = image(pfx)
+            extra = [("info", "-"), ("mapzone", ctx.rng.randrange(len(im.mapzones))), ("loc", ctx.rng.randrange(max(1, len(im.locs or ())))),
+                     ("loc70", ctx.rng.randrange(max(1, len(im.locs70 or ()))))]
+            w, a = ctx.rng.choice(extra)
+            o = mut_op(w, pfx, edits, a)
+            MUT_KIND[o] = kind
+            mut.append(o)
+    return pay, mut
 
 
 def run(ctx):
@@ -205,6 +823,8 @@ def run(ctx):
     for i in ids:
         fx.append("fixed.parse " + hexs(i))
     ops += fx
+    pay, mut = source_ops(ctx)
+    ops += pay
     # the model's reading of the bytes, once; the oracle compares the code against it
     mres = model_eval(ops, "drv_c06")
     for o, r in zip(ops, mres):
@@ -218,6 +838,21 @@ def run(ctx):
     # correspondence proper (the file.load lines are long: compare them by the oracle only)
     ctx.correspond("file.zones+behaviour", loads + show_ops + beh + fx, impl, oracle=oracle, driver="drv_c06",
                    nontrivial=lambda t, r: t[0] != "file.load", exhaustive=False)
+    # every record of fields 4, 6, 7, the version strings, the derived maps, validate(): exhaustive on both files
+    ctx.correspond("file.payloads", loads + pay, impl, oracle=oracle, driver="drv_c06",
+                   nontrivial=lambda t, r: t[0] != "file.load", exhaustive=True)
+    # the same on byte-level edits of the files (damaged and rearranged data)
+    # (an edited file costs the model ~0.5 s: its replies are recorded from the suite's own model run instead of
+    # being computed twice)
+    with _recording_model_replies():
+        ctx.correspond("file.damaged", loads + mut, impl, oracle=oracle, driver="drv_c06",
+                       nontrivial=lambda t, r: t[0] != "file.load", exhaustive=False)
+    outcomes = {}
+    for o in mut:
+        if o.startswith("mut.valid "):
+            k = MUT_KIND[o]
+            outcomes.setdefault(k, set()).add(MODEL[o].split(" ", 2)[2])
+    ctx.note("damaged_outcomes", {k: sorted(v) for k, v in sorted(outcomes.items())})
     # aliases and validate()
     cases = []
     for pfx, rel in FILES:
@@ -235,6 +870,20 @@ def run(ctx):
             return {"key": "validate-fails", "what": f"{pfx}: source.validate() raised {type(e).__name__}: {e}"}
         return None
     ctx.check_cases("source.validate", [p for p, _ in FILES], validate_case, exhaustive=True)
+    # the laws of the derived maps on the code's own objects: the loaded files and every edited file that validates
+    law_cases = [(pfx, provider(pfx)[1]) for pfx, _ in FILES]
+    seen = set()
+    for o in mut:
+        if o.startswith("mut.valid "):
+            t = o.split(" ")
+            key = (t[1], tuple(t[4:]))
+            if key in seen:
+                continue
+            seen.add(key)
+            _, src = mutated_source(t[1], t[4:])
+            if not isinstance(src, BaseException):
+                law_cases.append((f"{t[1]} edited ({MUT_KIND[o]})", src))
+    ctx.check_cases("derived-maps.laws", law_cases, derived_maps_case, exhaustive=False)
 
 
 def replay_op(op, failure):
@@ -247,4 +896,6 @@ def replay_op(op, failure):
         pre.append(f"file.load {pfx} {data.hex()}")
     res = model_eval(pre + [op], "drv_c06")
     MODEL[op] = res[-1]
+    if t[0].startswith("mut."):
+        MUT_KIND.setdefault(op, "replayed edit")
     return oracle(t)
